@@ -62,6 +62,8 @@ class LockDomain(Domain):
         self.events = []       # backend events with the held set
         self.create_held = {}  # (body path, bi) -> held classes at creation of a future
         self.leaks = []
+        self.poll_held = {}    # (fn created, where created) -> {'created': set, 'polled': set, 'by': fn}
+        self.enter_held = {}   # callee short name -> list of held sets at entry
 
     # ---------------------------------------------------------------- helpers
     def cls_name(self, tid):
@@ -112,7 +114,7 @@ class LockDomain(Domain):
                         kind = cn[:2]
                 cls = 'cluster:' + kind
             for (hc, hm, hd, _holder, hfn, gap) in held:
-                if hd != depth:
+                if hd != depth or hc.startswith('@'):
                     continue
                 if hc == cls and conflict(hm, mode) and base_class(cls) not in MULTI_INSTANCE:
                     self.selfacq.setdefault((cls, hm, mode), []).append(site)
@@ -131,7 +133,7 @@ class LockDomain(Domain):
         if fut.kind == 'trait_fn':
             self.events.append({
                 'op': fut.path.split('::')[-1], 'where': fr.where(bi), 'fn': short(fr.body.path),
-                'chain': fr.chain_str(), 'held': sorted({(c, m) for (c, m, d, _h, _f, _g) in held if d == depth}),
+                'chain': fr.chain_str(), 'held': sorted({(c, m) for (c, m, d, _h, _f, _g) in held if d == depth and not c.startswith('@')}),
                 'depth': depth,
             })
         return [(tok, None)]
@@ -205,10 +207,31 @@ class LockDomain(Domain):
 
     def on_create(self, ip, fr, tok, tags, bi, term, fn):
         depth, held = tok
-        self.create_held[(fr.body.path, bi)] = (fn, sorted({(c, m) for (c, m, d, _h, _f, _g) in held if d == depth}))
+        acq = self._cluster_acq_blocks(ip, fr.body)
+        if acq and any(fr.body.dominates(a, bi) for a in acq):
+            own = [g for g in held if g[2] == depth and g[3] != 'outer' and g[0].startswith('cluster') and g[1] == 'write']
+            if own:
+                # a request created under this frame's per-cluster write guard
+                held = held | {('@pend:%s:%d' % (short(fn), bi), 'mark', depth, 'parked', short(fr.body.path), False)}
+                return (depth, held)
         return tok
 
     # ---------------------------------------------------------------- frames
+    def _cluster_acq_blocks(self, ip, body):
+        """Blocks of `body` that acquire a per-cluster (RwLock<bool>) write lock."""
+        if not hasattr(self, '_cab'):
+            self._cab = {}
+        r = self._cab.get(body.path)
+        if r is None:
+            r = []
+            for bi, t in body.calls():
+                if t.get('fn', '').endswith('Future::poll'):
+                    for fu in ip.p.futs(t['a'][0], ()):
+                        if fu.kind == 'lock' and fu.mode == 'write' and self.cls_name(fu.cls) == 'cluster':
+                            r.append(bi)
+            self._cab[body.path] = r
+        return r
+
     def _depth_of_call(self, ip, fr, term, depth):
         """+1 when the receiver derives from the `backing_file` field."""
         if term is None or not term.get('args'):
@@ -239,6 +262,22 @@ class LockDomain(Domain):
             sites = ip.creation_sites(fr.body, cfr.body.parent if cfr.body.is_coroutine else cfr.body.path)
             cterm = sites[0][1] if sites else None
         nd = self._depth_of_call(ip, fr, cterm, depth)
+        cname = short(cfr.body.path)
+        here = frozenset((c, m) for (c, m, d, _h, _f, _g) in held if d == depth and not c.startswith('@'))
+        self.enter_held.setdefault(cname, set()).add(here)
+        if term.get('fn', '').endswith('Future::poll') and cfr.body.is_coroutine:
+            one = ip.creation_of_poll(fr, term, cfr.body.parent)
+            if one is not None:
+                mark = '@pend:%s:%d' % (cname, one[0])
+                if any(g[0] == mark for g in held):
+                    own = sorted({(c, m) for (c, m, d, h, _f, _g) in held
+                                  if d == depth and h != 'outer' and c.startswith('cluster') and m == 'write'})
+                    k = (cname, fr.body.where(one[0]), short(fr.body.path))
+                    e = self.poll_held.setdefault(k, {'ok': True, 'n': 0})
+                    e['n'] += 1
+                    if not own:
+                        e['ok'] = False
+                    held = frozenset(g for g in held if g[0] != mark)
         # guards passed by value become the callee's (argument local), the rest are outer
         new = set()
         moved = {}
